@@ -10,6 +10,7 @@ open BeffVerif
 def hyps (req : Sexp) : Option Sexp :=
   match req with
   | .list [.atom "rt", env, rt, val, .atom _] => some (Driver.rtHyps env rt val)
+  | .list [.atom "prog", _, prog, _, .list vals] => some (Driver.progSpec prog vals)
   | _ => none
 
 def handle (req : Sexp) : Sexp :=
